@@ -106,6 +106,7 @@ pub fn run(ctx: &Ctx) -> i32 {
     sponge(ctx);
     keccak_spec(ctx);
     challenger_native(ctx);
+    challenger_with_empty_absorbs(ctx);
     challenger_compound(ctx);
     challenger_circuit(ctx);
     let variant = crate::variant_name();
@@ -1061,4 +1062,97 @@ fn keccak_spec(ctx: &Ctx) {
             Ok(format!("keccak:permutation:rejected{}", rejected.min(1)))
         });
     }
+}
+
+
+/// Second exploration with degenerate absorb calls in the alphabet: E = observe_elements(&[]),
+/// X = observe_extension_elements(&[]) (both must be no-ops: absorbing the same elements in ANY
+/// chunking, empty chunks included, yields the same challenges), P = observe_elements of two values.
+fn challenger_with_empty_absorbs(ctx: &Ctx) {
+    let max_depth = if ctx.tier.thorough() { 11 } else { 9 };
+    const OPS: [char; 5] = ['O', 'G', 'E', 'X', 'P'];
+    fn rec(ctx: &Ctx, real: Challenger<F, PoseidonHash>, model: ModelChallenger, depth: usize, max_depth: usize, path: &mut String) {
+        ctx.state(1);
+        if depth == max_depth {
+            let mut r = real.clone();
+            let mut m = model.clone();
+            let rs: Vec<u64> = r.compact().as_ref().iter().map(|x| x.0 % P).collect();
+            ctx.trace(1);
+            if rs[..] != m.compact(&ref_poseidon)[..] {
+                ctx.violation("challenger:empty-absorbs:compact", format!("challenger ops={path}"), "compact() state differs from the model");
+            }
+            return;
+        }
+        for op in OPS {
+            let mut r = real.clone();
+            let mut m = model.clone();
+            path.push(op);
+            ctx.transition(1);
+            ctx.tick(1);
+            let mut ok = true;
+            match op {
+                'O' => {
+                    let v = observed_value(depth);
+                    r.observe_element(F(v));
+                    m.observe(v, &ref_poseidon);
+                }
+                'E' => r.observe_elements(&[]),
+                'X' => r.observe_extension_elements::<2>(&[]),
+                'P' => {
+                    let (a, b) = (observed_value(depth), observed_value(depth + 11));
+                    r.observe_elements(&[F(a), F(b)]);
+                    m.observe(a, &ref_poseidon);
+                    m.observe(b, &ref_poseidon);
+                }
+                _ => {
+                    let a = r.get_challenge().0 % P;
+                    let b = m.get(&ref_poseidon);
+                    if a != b {
+                        ctx.violation("challenger:empty-absorbs:get_challenge", format!("challenger ops={path}"), format!("challenge {a} != model {b} (an empty absorb must be a no-op)"));
+                        ok = false;
+                    }
+                }
+            }
+            if ok {
+                rec(ctx, r, m, depth + 1, max_depth, path);
+            }
+            path.pop();
+        }
+    }
+    // split on the first two operations
+    let firsts: Vec<(char, char)> = OPS.iter().flat_map(|a| OPS.iter().map(move |b| (*a, *b))).collect();
+    par_for(firsts.len(), |i| {
+        // replay the 2-op prefix through the same code path by restricting the recursion
+        let (a, b) = firsts[i];
+        let mut real = Challenger::<F, PoseidonHash>::new();
+        let mut model = ModelChallenger::new();
+        let mut path = String::new();
+        for (d, op) in [a, b].into_iter().enumerate() {
+            path.push(op);
+            match op {
+                'O' => {
+                    real.observe_element(F(observed_value(d)));
+                    model.observe(observed_value(d), &ref_poseidon);
+                }
+                'E' => real.observe_elements(&[]),
+                'X' => real.observe_extension_elements::<2>(&[]),
+                'P' => {
+                    let (x, y) = (observed_value(d), observed_value(d + 11));
+                    real.observe_elements(&[F(x), F(y)]);
+                    model.observe(x, &ref_poseidon);
+                    model.observe(y, &ref_poseidon);
+                }
+                _ => {
+                    let x = real.get_challenge().0 % P;
+                    let y = model.get(&ref_poseidon);
+                    if x != y {
+                        ctx.violation("challenger:empty-absorbs:get_challenge", format!("challenger ops={path}"), format!("challenge {x} != model {y}"));
+                        return;
+                    }
+                }
+            }
+        }
+        rec(ctx, real, model, 2, max_depth, &mut path);
+    });
+    ctx.class(format!("challenger:empty-absorbs:depth{max_depth}"));
 }
